@@ -18,8 +18,11 @@ def short_call(name):
 
 
 class Desc:
-    def __init__(self, fn):
+    def __init__(self, fn, expand=False):
+        """expand: a *named* local that is assigned exactly once (a `let` binding of a sub-expression) is described by its definition
+        instead of its name, so that binding a sub-expression to a local (or not) gives the same description"""
         self.fn = fn
+        self.expand = expand
         self._memo = {}
 
     def place(self, p, depth=0):
@@ -33,6 +36,10 @@ class Desc:
                 u = fn.upvar_names.get(pr[:ln])
                 if u is not None:
                     return u + self._proj(pr[ln:])
+        if nm and self.expand and not (1 <= base <= fn.argc) and depth < MAXD:
+            d0 = fn.single_def(base)
+            if d0 is not None and (d0[1] == "call" or (d0[1] == "assign" and d0[2]["rv"]["r"] in ("use", "cast", "bin", "len"))):
+                nm = None
         if nm:
             return nm + self._proj(proj)
         if 1 <= base <= fn.argc:
@@ -49,7 +56,7 @@ class Desc:
         if kind == "assign":
             rv = pl["rv"]
             inner = self.rvalue(rv, depth + 1)
-            if nm and rv["r"] not in ("use", "ref", "cast"):
+            if nm and rv["r"] not in ("use", "ref", "cast") and not self.expand:
                 inner = nm
             if proj and proj[0] == "*" and inner.startswith("&"):
                 return inner[1:] + self._proj(proj[1:])
@@ -134,6 +141,7 @@ class Facts6:
     def __init__(self, fn):
         self.fn = fn
         self.d = Desc(fn)
+        self.dx = Desc(fn, expand=True)
         self._cmps = None
         self._dis = None
         self._loops = None
@@ -148,18 +156,27 @@ class Facts6:
                 if rv["r"] == "bin" and rv["op"] in OPS and len(s["lhs"]) == 1:
                     tests = fn.bool_tests(s["lhs"][0])
                     if tests:
-                        out.append((tests, self.d.op(rv["a"]), OPS[rv["op"]], self.d.op(rv["b"])))
+                        for d in (self.d, self.dx):
+                            e = (tests, d.op(rv["a"]), OPS[rv["op"]], d.op(rv["b"]))
+                            if e not in out:
+                                out.append(e)
             for c in fn.calls(r"cmp::Partial(Ord|Eq)(<.*>)?>?::(lt|le|gt|ge|eq|ne)$|::(lt|le|gt|ge|eq|ne)$"):
                 m = c.name.rsplit("::", 1)[-1]
                 if m in CALL_OPS and len(c.args) == 2 and len(c.dest) == 1:
                     tests = fn.bool_tests(c.dest[0])
                     if tests:
-                        out.append((tests, self.d.op(c.args[0]).lstrip("&"), CALL_OPS[m], self.d.op(c.args[1]).lstrip("&")))
+                        for d in (self.d, self.dx):
+                            e = (tests, d.op(c.args[0]).lstrip("&"), CALL_OPS[m], d.op(c.args[1]).lstrip("&"))
+                            if e not in out:
+                                out.append(e)
             # is_empty / is_some style predicates
             for c in fn.calls(r"::is_empty$"):
                 tests = fn.bool_tests(c.dest[0]) if len(c.dest) == 1 else []
                 if tests and c.args:
-                    out.append((tests, "len(%s)" % self.d.op(c.args[0]).lstrip("&"), "==", "0"))
+                    for d in (self.d, self.dx):
+                        e = (tests, "len(%s)" % d.op(c.args[0]).lstrip("&"), "==", "0")
+                        if e not in out:
+                            out.append(e)
             self._cmps = out
         return self._cmps
 
@@ -170,6 +187,8 @@ class Facts6:
             for sw in fn.discr_switches():
                 node, place, adt, m, other, other_vars = sw
                 out.append((sw, self.d.place(place)))
+                if self.dx.place(place) != self.d.place(place):
+                    out.append((sw, self.dx.place(place)))
             self._dis = out
         return self._dis
 
@@ -217,6 +236,9 @@ class Facts6:
                 if not sws:
                     continue
                 out.append((c, sws[0], "%s..%s" % (self.d.op(rng["ops"][0]), self.d.op(rng["ops"][1]))))
+                rx = "%s..%s" % (self.dx.op(rng["ops"][0]), self.dx.op(rng["ops"][1]))
+                if rx != out[-1][2]:
+                    out.append((c, sws[0], rx))
             self._loops = out
         return self._loops
 
